@@ -49,6 +49,18 @@ func nativeFiles(fam, bounds string, chunk int) (map[string]string, int) {
 		}
 		pkgNames = append(pkgNames, "s0")
 		n = cnt
+	} else if fam == "dispatch" {
+		subs := subjects(fam, bounds)
+		n = len(subs)
+		// every dispatch program declares its own types and init functions: one native package per program
+		for i, sub := range subs {
+			name := fmt.Sprintf("q%d", i)
+			pkgNames = append(pkgNames, name)
+			src := strings.Replace(sub.Src, "package main", "package "+name, 1)
+			src = strings.Replace(src, "func main() {", "func Main() {", 1)
+			src += fmt.Sprintf("func noreset() {}\nvar Progs = []rt.Entry{{Name: \"%d\", Main: Main, Reset: noreset}}\n", i)
+			files[name+"/p.go"] = src
+		}
 	} else if fam == "defers" {
 		funcs := deferFuncs(bounds)
 		n = len(funcs)
